@@ -172,7 +172,7 @@ def run(tier: str, seed: int, t0: float) -> int:
     stats.tlc_cmds = stats.tlc_cmds[:6] + [f"... {len(stats.tlc_cmds) - 6} more runs"]
     for key, least in (("add_to_set", 2000), ("allowed_marks", 1000), ("set_from", 100)):
         if stats.counts.get(key, 0) < least:
-            raise core.MachineryError(f"vacuity gate: {key}={stats.counts.get(key, 0)} < {least}")
+            core.vacuity(out, f"vacuity gate: {key}={stats.counts.get(key, 0)} < {least}")
     stats.exhaustive = True
     stats.bounds = {"configurations": len(fam), "mark_universe": len(UNIVERSE), "max_set": 5}
     return core.finish("C14", tier, seed, stats, out, t0,
